@@ -2,7 +2,7 @@
    Main results (used by Props/C20.v):
      run_files, spec_files_char          the file arguments
      run_includes                        the -I arguments
-     run_mappings, spec_mappings_of_char the M mappings per plugin
+     run_mappings, scan_mappings_of_char the M mappings per plugin
      run_requests                        plugin output flags
      run_succeeds, invocations_le_one    exactly one invocation                                *)
 From Coq Require Import String List Bool Arith Ascii Lia Permutation.
@@ -524,13 +524,13 @@ Definition dirs_ok (cfg : config) : Prop :=
 Section Run.
   Variable pkg_of : path -> result string.
 
-  Definition map_pkg (a : path) (prefix : option path) (r : path) : string :=
+  Definition map_pkg (a : path) (prefix : option string) (r : path) : string :=
     match prefix with
-    | Some pre => render_rel (pre ++ dir_of r)
+    | Some pre => join_pkg pre (dir_of r)
     | None => pkg_or_unknown pkg_of (dir_of (a ++ r))
     end.
 
-  Definition mapping_items (cfg : config) (a : path) (prefix : option path)
+  Definition mapping_items (cfg : config) (a : path) (prefix : option string)
              (L : list (path * node)) : list arg :=
     flat_map (fun rx => if has_go_package (snd rx) then []
                         else mapping_args cfg (fst rx) (map_pkg a prefix (fst rx))) L.
@@ -611,12 +611,12 @@ Section Run.
   Definition proto_nogp (rx : path * node) : bool :=
     is_proto_file (snd rx) && negb (has_go_package (snd rx)).
 
-  Lemma spec_mappings_of_eq : forall cfg inc n,
+  Lemma scan_mappings_of_eq : forall cfg inc n,
     lookup (c_root cfg) (to_abs (c_cwd cfg) (fst inc)) = Some n ->
-    spec_mappings_of pkg_of cfg inc =
+    scan_mappings_of pkg_of cfg inc =
     map (fun rx => (fst rx, map_pkg (to_abs (c_cwd cfg) (fst inc)) (snd inc) (fst rx)))
         (filter proto_nogp (below n)).
-  Proof. intros cfg inc n H. unfold spec_mappings_of. rewrite H. reflexivity. Qed.
+  Proof. intros cfg inc n H. unfold scan_mappings_of, mappings_by. rewrite H. reflexivity. Qed.
 
   Lemma mapping_items_proj : forall cfg a prefix L pl,
     Forall is_map (mapping_items cfg a prefix L)
@@ -643,7 +643,7 @@ Section Run.
         files_of l = [] /\ includes_of l = [to_abs (c_cwd cfg) (fst inc)]
         /\ (forall pl, requests pl l = false)
         /\ (forall pl, mappings_of pl l =
-                       if requested cfg pl then spec_mappings_of pkg_of cfg inc else [])
+                       if requested cfg pl then scan_mappings_of pkg_of cfg inc else [])
     | Err => exists d, pkg_of d = Err
     end.
   Proof.
@@ -669,7 +669,7 @@ Section Run.
       + intros pl. cbn [mappings_of flat_map app]. fold (mappings_of pl (mapping_items cfg a (snd inc) L)).
         destruct (mapping_items_proj cfg a (snd inc) L pl) as [_ HM2]. rewrite HM2.
         destruct (requested cfg pl); [|reflexivity].
-        rewrite (spec_mappings_of_eq cfg inc (Dir s ch) Hn). fold a.
+        rewrite (scan_mappings_of_eq cfg inc (Dir s ch) Hn). fold a.
         unfold L. rewrite filter_filter. reflexivity.
     - destruct HS as (r & x & _ & _ & _ & HE). eexists. exact HE.
   Qed.
@@ -682,7 +682,7 @@ Section Run.
         files_of l = [] /\ includes_of l = map (fun i => to_abs (c_cwd cfg) (fst i)) incs
         /\ (forall pl, requests pl l = false)
         /\ (forall pl, mappings_of pl l =
-                       if requested cfg pl then flat_map (spec_mappings_of pkg_of cfg) incs else [])
+                       if requested cfg pl then flat_map (scan_mappings_of pkg_of cfg) incs else [])
     | Err => exists d, pkg_of d = Err
     end.
   Proof.
@@ -708,7 +708,7 @@ Section Run.
     wf_node (c_root cfg) -> dirs_ok cfg -> run pkg_of cfg = Ok argv ->
     includes_of argv = spec_includes cfg
     /\ (forall pl, requests pl argv = requested cfg pl)
-    /\ (forall pl, mappings_of pl argv = spec_mappings pkg_of cfg pl).
+    /\ (forall pl, mappings_of pl argv = scan_mappings pkg_of cfg pl).
   Proof.
     intros cfg argv Hwf Hdirs Hrun. unfold run in Hrun.
     destruct (find_protos cfg (c_input cfg) (c_recurse cfg)) as [paths|]; [|discriminate].
@@ -724,7 +724,7 @@ Section Run.
       rewrite !orb_false_r. reflexivity.
     - intros pl. rewrite !mappings_of_app, M, mappings_of_files, app_nil_r.
       destruct (plugin_flags_proj cfg pl) as (_ & _ & E & _). rewrite E.
-      unfold spec_mappings. reflexivity.
+      unfold scan_mappings. reflexivity.
   Qed.
 End Run.
 
@@ -920,20 +920,20 @@ Section SpecMappings.
   Variable pkg_of : path -> result string.
 
   (* "(r, k) is the mapping of a proto r below include directory a that lacks go_package" *)
-  Definition mapping_wanted (cfg : config) (inc : pspec * option path) (r : path) (k : string) : Prop :=
+  Definition scan_mapping_wanted (cfg : config) (inc : pspec * option string) (r : path) (k : string) : Prop :=
     let a := to_abs (c_cwd cfg) (fst inc) in
     exists x, r <> [] /\ lookup (c_root cfg) (a ++ r) = Some x
               /\ is_proto_file x = true /\ has_go_package x = false
               /\ k = map_pkg pkg_of a (snd inc) r.
 
-  Lemma spec_mappings_of_char : forall cfg inc, wf_node (c_root cfg) ->
-    NoDup (map fst (spec_mappings_of pkg_of cfg inc))
-    /\ (forall r k, In (r, k) (spec_mappings_of pkg_of cfg inc) <-> mapping_wanted cfg inc r k).
+  Lemma scan_mappings_of_char : forall cfg inc, wf_node (c_root cfg) ->
+    NoDup (map fst (scan_mappings_of pkg_of cfg inc))
+    /\ (forall r k, In (r, k) (scan_mappings_of pkg_of cfg inc) <-> scan_mapping_wanted cfg inc r k).
   Proof.
-    intros cfg inc Hwf. unfold mapping_wanted.
+    intros cfg inc Hwf. unfold scan_mapping_wanted.
     destruct (lookup (c_root cfg) (to_abs (c_cwd cfg) (fst inc))) as [n|] eqn:El.
     - assert (Hwfn : wf_node n) by (eapply wf_lookup; eauto).
-      rewrite (spec_mappings_of_eq pkg_of cfg inc n El). split.
+      rewrite (scan_mappings_of_eq pkg_of cfg inc n El). split.
       + rewrite map_map. cbn [fst]. apply NoDup_map_fst_filter. apply below_nodup. exact Hwfn.
       + intros r k. rewrite in_map_iff. split.
         * intros ([r' x] & E & Hin). cbn [fst] in E. inversion E; subst r' k.
@@ -945,7 +945,7 @@ Section SpecMappings.
           apply filter_In. split.
           -- apply (below_lookup n Hwfn). split; auto. rewrite lookup_app, El in Hlk. exact Hlk.
           -- unfold proto_nogp. cbn [snd]. rewrite Hp, Hg. reflexivity.
-    - unfold spec_mappings_of. rewrite El. split; [constructor|].
+    - unfold scan_mappings_of, mappings_by. rewrite El. split; [constructor|].
       intros r k. split; [intros []|]. intros (x & _ & Hlk & _). rewrite lookup_app, El in Hlk. discriminate.
   Qed.
 End SpecMappings.
@@ -1008,7 +1008,7 @@ Lemma run_checked : forall pkg_of cfg argv,
   map (to_abs (c_cwd cfg)) (files_of argv) = spec_files cfg
   /\ includes_of argv = spec_includes cfg
   /\ (forall pl, requests pl argv = requested cfg pl)
-  /\ (forall pl, mappings_of pl argv = spec_mappings pkg_of cfg pl).
+  /\ (forall pl, mappings_of pl argv = scan_mappings pkg_of cfg pl).
 Proof.
   intros pkg_of cfg argv Hwf Hdirs Hrun.
   apply wf_nodeb_sound in Hwf. apply dirs_okb_sound in Hdirs.
@@ -1034,5 +1034,87 @@ Qed.
 Lemma run_mappings : forall pkg_of cfg argv,
   wf_node (c_root cfg) -> dirs_ok cfg -> run pkg_of cfg = Ok argv ->
   forall pl, mappings_of pl argv =
-             if requested cfg pl then flat_map (spec_mappings_of pkg_of cfg) (include_paths cfg) else [].
+             if requested cfg pl then flat_map (scan_mappings_of pkg_of cfg) (include_paths cfg) else [].
 Proof. intros pkg_of cfg argv H1 H2 H3. apply (run_includes_part pkg_of cfg argv H1 H2 H3). Qed.
+
+(* ------------------------------------------------------------------ the scan as decider of
+   "declares go_package": on trees whose *.proto files the line scan classifies correctly
+   ([tree_agreesb], a condition on the input tree alone) the mappings the code produces
+   ([scan_mappings]) are the ones the property asks for ([spec_mappings]) *)
+Lemma tree_agrees_dir : forall s ch, tree_agreesb (Dir s ch) = true -> Forall (fun c => tree_agreesb c = true) ch.
+Proof. intros s ch H. cbn [tree_agreesb] in H. rewrite forallb_forall in H. apply Forall_forall. exact H. Qed.
+
+Lemma tree_agrees_lookup : forall p n x,
+  tree_agreesb n = true -> lookup n p = Some x -> tree_agreesb x = true.
+Proof.
+  induction p as [|s p IH]; intros n x Hn H; simpl in H.
+  - inversion H; subst. exact Hn.
+  - destruct n as [a c r|a ch]; try discriminate.
+    destruct (find_child s ch) as [c|] eqn:E; try discriminate.
+    apply find_child_In in E. destruct E as [Hin _].
+    apply tree_agrees_dir in Hn. rewrite Forall_forall in Hn. eapply IH; [|exact H]. apply Hn. exact Hin.
+Qed.
+
+Lemma agrees_proto : forall x, tree_agreesb x = true -> is_proto_file x = true ->
+  has_go_package x = node_declares x.
+Proof.
+  intros [s c r|s ch] Ha Hp; [|discriminate].
+  cbn [tree_agreesb] in Ha. rewrite Hp in Ha. cbn [negb orb] in Ha.
+  unfold scan_agrees in Ha. apply Bool.eqb_prop in Ha. exact Ha.
+Qed.
+
+Lemma spec_scan_mappings_of : forall pkg_of cfg inc,
+  wf_node (c_root cfg) -> tree_agreesb (c_root cfg) = true ->
+  spec_mappings_of pkg_of cfg inc = scan_mappings_of pkg_of cfg inc.
+Proof.
+  intros pkg_of cfg inc Hwf Ha. unfold spec_mappings_of, scan_mappings_of, mappings_by.
+  destruct (lookup (c_root cfg) (to_abs (c_cwd cfg) (fst inc))) as [n|] eqn:El; [|reflexivity].
+  f_equal. apply filter_ext_in. intros [r x] Hin. cbn [snd].
+  destruct (is_proto_file x) eqn:Hp; [|reflexivity]. cbn [andb]. f_equal.
+  symmetry. apply agrees_proto; [|exact Hp].
+  assert (Hwfn : wf_node n) by (eapply wf_lookup; eauto).
+  apply (below_lookup n Hwfn) in Hin. destruct Hin as [_ Hl].
+  eapply tree_agrees_lookup; [|exact Hl]. eapply tree_agrees_lookup; eauto.
+Qed.
+
+Lemma spec_scan_mappings : forall pkg_of cfg pl,
+  wf_node (c_root cfg) -> tree_agreesb (c_root cfg) = true ->
+  spec_mappings pkg_of cfg pl = scan_mappings pkg_of cfg pl.
+Proof.
+  intros pkg_of cfg pl Hwf Ha. unfold spec_mappings, scan_mappings.
+  destruct (requested cfg pl); [|reflexivity].
+  apply flat_map_ext. intros inc. apply spec_scan_mappings_of; assumption.
+Qed.
+
+(* the property's mapping clause, on the input domain where the scan is right *)
+Lemma run_mappings_spec : forall pkg_of cfg argv,
+  wf_node (c_root cfg) -> dirs_ok cfg -> tree_agreesb (c_root cfg) = true ->
+  run pkg_of cfg = Ok argv ->
+  forall pl, mappings_of pl argv = spec_mappings pkg_of cfg pl.
+Proof.
+  intros pkg_of cfg argv H1 H2 Ha H3 pl. rewrite spec_scan_mappings by assumption.
+  apply (run_includes_part pkg_of cfg argv H1 H2 H3).
+Qed.
+
+Section SpecWanted.
+  Variable pkg_of : path -> result string.
+  (* declarative reading of [spec_mappings_of]: with "does not declare go_package" *)
+  Definition mapping_wanted (cfg : config) (inc : pspec * option string) (r : path) (k : string) : Prop :=
+    let a := to_abs (c_cwd cfg) (fst inc) in
+    exists x, r <> [] /\ lookup (c_root cfg) (a ++ r) = Some x
+              /\ is_proto_file x = true /\ node_declares x = false
+              /\ k = map_pkg pkg_of a (snd inc) r.
+
+  Lemma spec_mappings_of_char : forall cfg inc,
+    wf_node (c_root cfg) -> tree_agreesb (c_root cfg) = true ->
+    NoDup (map fst (spec_mappings_of pkg_of cfg inc))
+    /\ (forall r k, In (r, k) (spec_mappings_of pkg_of cfg inc) <-> mapping_wanted cfg inc r k).
+  Proof.
+    intros cfg inc Hwf Ha. rewrite spec_scan_mappings_of by assumption.
+    destruct (scan_mappings_of_char pkg_of cfg inc Hwf) as [Hnd Hin]. split; [exact Hnd|].
+    intros r k. rewrite Hin. unfold scan_mapping_wanted, mapping_wanted. cbv zeta.
+    split; intros (x & H1 & H2 & H3 & H4 & H5); exists x; repeat split; auto.
+    - rewrite <- (agrees_proto x); auto. eapply tree_agrees_lookup; eauto.
+    - rewrite (agrees_proto x); auto. eapply tree_agrees_lookup; eauto.
+  Qed.
+End SpecWanted.
